@@ -323,7 +323,15 @@ impl ThriftBackend {
             ty::Path(p) if self.is_i32_enum(p.did) => {
                 format!("__protocol.i32_field_len(Some({id}), ({ident}).inner())").into()
             }
-            ty::Path(_) => format!("__protocol.struct_field_len(Some({id}), {ident})").into(),
+            ty::Path(p) => match self.cx.expect_item(p.did).as_ref() {
+                // a typedef of bool is written with `write_struct_field(id, v, TType::Bool)`: under the compact
+                // protocol the value travels in the field header, so the header must be sized as a bool header
+                // (for every other type the header length does not depend on the type)
+                rir::Item::NewType(nt) if matches!(self.ttype(&nt.ty).as_ref(), "::pilota::thrift::TType::Bool") => {
+                    format!("__protocol.field_begin_len(::pilota::thrift::TType::Bool, Some({id})) + __protocol.struct_len({ident}) + __protocol.field_end_len()").into()
+                }
+                _ => format!("__protocol.struct_field_len(Some({id}), {ident})").into(),
+            },
             ty::Arc(ty) => self.codegen_field_size(ty, id, ident),
             _ => unimplemented!(),
         }
